@@ -1056,12 +1056,12 @@ fn main() {
         let s2len = space2.len();
         ctx.family(
             "pl-ligtables",
-            &format!("LIGTABLEs written from the C05 program space: every set of <= {max_rules} rules (<= 2 outside the consecutive layout) x boundarychar in {{none,c,a}} x 5 label layouts (separate chains; 300 unreachable instructions in front = entry points beyond 255; SKIP over a foreign instruction; chains without STOP between them = several labels per chain; c labelling the last instruction of a chain); the TFM is also compared with the program as written"),
+            &format!("LIGTABLEs written from the C05 program space: every set of <= {max_rules} rules (<= 2 outside the consecutive and fall-through layouts) x boundarychar in {{none,c,a}} x 5 label layouts (separate chains; 300 unreachable instructions in front = entry points beyond 255; SKIP over a foreign instruction; chains without STOP between them = several labels per chain; c labelling the last instruction of a chain); the TFM is also compared with the program as written"),
             n,
             |i, acc| {
                 let d = vcore::digits(i, &[sp.len(), 3, nl]);
                 let layout = pl_layouts[d[2] as usize];
-                if layout != Layout::Consecutive && d[0] >= s2len {
+                if d[0] >= s2len && !(layout == Layout::Consecutive || layout == Layout::FallThrough) {
                     return; // not enumerated (see bounds text)
                 }
                 let rules = sp.rules(d[0]);
@@ -1096,14 +1096,16 @@ fn main() {
     {
         let quick = ctx.quick();
         let sp: &Space = if quick { &space1 } else { &space2 };
-        let variants: Vec<u32> = if quick { (0..128).collect() } else { vec![0, 1, 2, 4, 8, 16, 32, 64, 127, 8 + 4, 8 + 16, 1 + 2 + 64] };
+        // every combination of the seven switches for <= 1 rule; for 2 rules (thorough) twelve of them
+        let variants: Vec<u32> = (0..128).collect();
+        let few: [u32; 12] = [0, 1, 2, 4, 8, 16, 32, 64, 127, 8 + 4, 8 + 16, 1 + 2 + 64];
         let nv = variants.len() as u64;
         let n = sp.len() * 3 * 3 * nv;
         let tfm_layouts = [Layout::Consecutive, Layout::FallThrough, Layout::SkipForeign];
         let vs = &variants;
         ctx.family(
             "tfm-noncanonical",
-            &format!("hand-written TFM files for the characters a,b,c,d with the lig/kern program of every set of <= {} rules x boundarychar x 3 chain layouts, in {} non-canonical forms (unsorted tables with duplicates and unused entries; nonexistent characters at both ends of bc..ec; orphan instruction; restart words for small entry points, the first doubling as boundary-character carrier; permuted kern table; lh=20; NEXTLARGER on c)", sp.max_rules, nv),
+            &format!("hand-written TFM files for the characters a,b,c,d with the lig/kern program of every set of <= {} rules x boundarychar x 3 chain layouts, in {} non-canonical forms (all 2^7 switch combinations for <= 1 rule, 12 of them for 2 rules: unsorted tables with duplicates and unused entries; nonexistent characters at both ends of bc..ec; orphan instruction; restart words for small entry points, the first doubling as boundary-character carrier; permuted kern table; lh=20; NEXTLARGER on c)", sp.max_rules, nv),
             n,
             |i, acc| {
                 let d = vcore::digits(i, &[sp.len(), 3, 3, nv]);
@@ -1112,6 +1114,9 @@ fn main() {
                     return;
                 };
                 let sw = vs[d[3] as usize];
+                if rules.len() >= 2 && !few.contains(&sw) {
+                    return; // not enumerated (see bounds text)
+                }
                 let b = write_tfm(&p, sw);
                 let before = acc.nontrivial;
                 check_tfm(i, &b, &|| json!({"kind": "tfm-noncanonical", "text": describe_rules(&rules, p.rbc), "layout": format!("{:?}", tfm_layouts[d[2] as usize]), "switches": sw}), acc);
